@@ -130,6 +130,23 @@ class Unknown(V):
         return ("unknown", self.why)
 
 
+def _eq_simplify(a, b):
+    """`a == b` for std's derived equality on Option/Result/bool when the shape of both sides is known."""
+    STD = ("std::option::Option", "std::result::Result")
+    if isinstance(a, Variant) and isinstance(b, Variant) and a.adt == b.adt and a.adt in STD:
+        if a.variant != b.variant:
+            return Const("bool", 0)
+        if not a.fields:
+            return Const("bool", 1)
+        return _eq_simplify(a.fields["0"], b.fields["0"]) or App("std::cmp::PartialEq::eq", [a.fields["0"], b.fields["0"]])
+    for x, y in ((a, b), (b, a)):
+        if isinstance(y, Const) and y.ty == "bool" and y.bits is not None:
+            if isinstance(x, Const) and x.ty == "bool" and x.bits is not None:
+                return Const("bool", 1 if bool(x.bits) == bool(y.bits) else 0)
+            return x if y.bits else App("unop:Not", [x])
+    return None
+
+
 def _pk(e):
     k = e["k"]
     if k == "field":
@@ -177,28 +194,43 @@ def show(v, depth=0):
 # ---- path state ----------------------------------------------------------------
 
 class Frame:
-    __slots__ = ("fid", "body", "locals", "bb", "ret_dest", "ret_target", "visits")
+    __slots__ = ("fid", "body", "locals", "bb", "ret_dest", "ret_target", "visits", "post")
 
-    def __init__(self, fid, body, locals_, ret_dest=None, ret_target=None):
+    def __init__(self, fid, body, locals_, ret_dest=None, ret_target=None, post=None):
         self.fid, self.body, self.locals = fid, body, locals_
         self.bb = 0
         self.ret_dest, self.ret_target = ret_dest, ret_target
         self.visits = {}
+        self.post = post          # applied to the returned value before it is stored (std combinator models)
 
     def copy(self):
-        f = Frame(self.fid, self.body, dict(self.locals), self.ret_dest, self.ret_target)
+        f = Frame(self.fid, self.body, dict(self.locals), self.ret_dest, self.ret_target, self.post)
         f.bb = self.bb
         f.visits = dict(self.visits)
         return f
 
 
+class _Log(list):
+    """A list whose appends are also recorded, in order, in the owning path's trace."""
+
+    def __init__(self, kind, trace, items=()):
+        super().__init__(items)
+        self.kind, self.trace = kind, trace
+
+    def append(self, x):
+        self.trace.append((self.kind, x))
+        super().append(x)
+
+
 class Path:
     def __init__(self):
         self.frames = []
-        self.decisions = []   # (kind, cond V, branch label, loc)
+        self.trace = []       # ('d', decision) / ('e', event) in execution order
+        self.decisions = _Log("d", self.trace)   # (kind, cond V, branch label, loc)
         self.assumed = {}     # cond key -> branch label
-        self.events = []      # ('call', path, args, loc) / ('assert', kind, loc) / ...
+        self.events = _Log("e", self.trace)      # ('call', path, args, loc) / ('assert', kind, loc) / ...
         self.heap = {}        # (base key, proj key) -> V   writes through opaque refs
+        self.widened = set()  # (frame id, loop header) already widened on this path
         self.next_fid = 0
         self.status = None
         self.result = None
@@ -207,10 +239,12 @@ class Path:
     def copy(self):
         p = Path()
         p.frames = [f.copy() for f in self.frames]
-        p.decisions = list(self.decisions)
+        p.trace = list(self.trace)
+        p.decisions = _Log("d", p.trace, self.decisions)
         p.assumed = dict(self.assumed)
-        p.events = list(self.events)
+        p.events = _Log("e", p.trace, self.events)
         p.heap = dict(self.heap)
+        p.widened = set(self.widened)
         p.next_fid = self.next_fid
         return p
 
@@ -226,6 +260,10 @@ class Policy:
     record_calls = True
     std_models = True
     deref_identity = True
+    loop_mode = "exact"          # "exact": a revisited block ends the path as unrecognised;
+                                 # "widen": at a loop header every local assigned inside the loop becomes unknown once,
+                                 #          the body is explored once more from that over-approximate state, and a
+                                 #          further arrival ends the path as covered ("loop-pruned")
 
     def inline(self, fn, args, interp, path):
         """Return True to inline a crate-local callee."""
@@ -272,13 +310,13 @@ class Interp:
             work.extend(forks)
         return done
 
-    def _push(self, path, body, args, ret_dest, ret_target):
+    def _push(self, path, body, args, ret_dest, ret_target, post=None):
         fid = path.next_fid
         path.next_fid += 1
         loc = {}
         for i, a in enumerate(args):
             loc[i + 1] = a
-        path.frames.append(Frame(fid, body, loc, ret_dest, ret_target))
+        path.frames.append(Frame(fid, body, loc, ret_dest, ret_target, post))
 
     def frame_by_id(self, path, fid):
         for f in path.frames:
@@ -560,9 +598,26 @@ class Interp:
             bi = frame.bb
             cnt = frame.visits.get(bi, 0) + 1
             frame.visits[bi] = cnt
+            if pol.loop_mode == "widen" and bi in self._loop_info(body):
+                path.events.append(("loophead", bi, body["path"], frame.fid))
             if cnt > pol.max_visits:
-                path.status, path.note = "unrecognised", "loop: bb%d of %s revisited" % (bi, body["path"])
-                return []
+                li = self._loop_info(body)
+                if pol.loop_mode == "widen" and bi in li:
+                    wk = (frame.fid, bi)
+                    if wk in path.widened:
+                        path.status, path.note = "loop-pruned", "bb%d of %s" % (bi, body["path"])
+                        return []
+                    path.widened.add(wk)
+                    blocks, assigned = li[bi]
+                    for L in assigned:
+                        frame.locals[L] = Unknown("loop:%s:_%d" % (body["path"].split("::")[-1], L))
+                    for b2 in blocks:
+                        frame.visits[b2] = 0
+                    frame.visits[bi] = 1
+                    path.events.append(("widen", bi, body["path"]))
+                else:
+                    path.status, path.note = "unrecognised", "loop: bb%d of %s revisited" % (bi, body["path"])
+                    return []
             blk = body["blocks"][bi]
             for st in blk["stmts"]:
                 if st["k"] == "assign":
@@ -587,6 +642,8 @@ class Interp:
                     path.status, path.result = "return", rv
                     return []
                 caller = path.frames[-1]
+                if frame.post is not None:
+                    rv = frame.post(self.snap_deep(path, rv))
                 self.write_place(path, caller, frame.ret_dest, rv)
                 caller.bb = frame.ret_target
                 if frame.ret_target is None:
@@ -679,6 +736,47 @@ class Interp:
     def _refine(self, path, d, label):
         pass
 
+    def _loop_info(self, body):
+        """header -> (blocks of the natural loop, locals assigned anywhere inside it)."""
+        cache = self.fb.__dict__.setdefault("_loop_info", {})
+        key = body["path"]
+        if key in cache:
+            return cache[key]
+        info = {}
+        dom_ = mir.dominators(body)
+        for (s, h) in mir.back_edges(body):
+            blocks = info.get(h, (set(), set()))[0]
+            # natural loop of back edge s->h: h plus everything that reaches s without passing h
+            loop = {h, s}
+            work = [s]
+            pm = mir.preds_map(body)
+            while work:
+                x = work.pop()
+                if x == h:
+                    continue
+                for pr in pm.get(x, []):
+                    if pr not in loop and h in dom_.get(pr, ()):
+                        loop.add(pr)
+                        work.append(pr)
+            blocks = blocks | loop
+            info[h] = (blocks, set())
+        for h, (blocks, _) in list(info.items()):
+            assigned = set()
+            for b in blocks:
+                blk = body["blocks"][b]
+                for st in blk["stmts"]:
+                    if st["k"] == "assign":
+                        assigned.add(st["place"]["local"])
+                        rv = st["rv"]
+                        if rv["k"] in ("ref", "rawptr") and "Mut" in rv.get("borrow", rv.get("kind", "")):
+                            assigned.add(rv["place"]["local"])   # mutated through the reference inside the loop
+                tt = blk["term"]
+                if tt["k"] == "call":
+                    assigned.add(tt["dest"]["local"])
+            info[h] = (blocks, assigned)
+        cache[key] = info
+        return info
+
     def callee_body(self, fn):
         if fn.get("trait"):
             b = self.fb.impl_method(fn)
@@ -738,10 +836,19 @@ class Interp:
                 or fn["name"] in ("as_slice", "as_mut_slice", "as_str", "as_mut_str", "as_ref", "as_mut") and len(args) == 1):
             # smart-pointer / view conversions: the result denotes the same object
             return self._finish_call(path, frame, t, args[0])
+        if pol.std_models and len(args) == 2 and name in ("std::cmp::PartialEq::eq", "std::cmp::PartialEq::ne"):
+            e = _eq_simplify(self._snap(path, args[0]), self._snap(path, args[1]))
+            if e is not None:
+                if name.endswith("::ne"):
+                    e = Const("bool", 0 if e.bits else 1) if isinstance(e, Const) and e.bits is not None else App("unop:Not", [e])
+                return self._finish_call(path, frame, t, e)
         if pol.std_models and args:
             sm = self._std_model(name, [self._snap(path, a) for a in args])
             if sm is not None:
                 return self._finish_call(path, frame, t, sm)
+            cm = self._combinator(path, frame, t, name, args)
+            if cm is not NotImplemented:
+                return cm
         body = self.callee_body(fn)
         if body is not None and len(path.frames) < pol.max_depth and pol.inline(fn, args, self, path):
             if t["target"] is None:
@@ -796,6 +903,127 @@ class Interp:
             if m == "ok":
                 return Variant(OPT, "Some", {"0": x}) if ok else Variant(OPT, "None", {})
         return None
+
+    # -- std Option / Result combinators with closures ---------------------------------------------
+    _COMB = {
+        # name: (receiver kind, {variant: action}); actions: ("call", arg index of the closure, uses payload?, wrap) /
+        #       ("payload", wrap) / ("arg", index, wrap) / ("same",)
+        "std::option::Option::<T>::map": ("opt", {"Some": ("call", 1, True, "Some"), "None": ("const", "None")}),
+        "std::option::Option::<T>::and_then": ("opt", {"Some": ("call", 1, True, None), "None": ("const", "None")}),
+        "std::option::Option::<T>::map_or": ("opt", {"Some": ("call", 2, True, None), "None": ("arg", 1, None)}),
+        "std::option::Option::<T>::map_or_else": ("opt", {"Some": ("call", 2, True, None), "None": ("call", 1, False, None)}),
+        "std::option::Option::<T>::unwrap_or_else": ("opt", {"Some": ("payload", None), "None": ("call", 1, False, None)}),
+        "std::option::Option::<T>::unwrap_or": ("opt", {"Some": ("payload", None), "None": ("arg", 1, None)}),
+        "std::option::Option::<T>::ok_or_else": ("opt", {"Some": ("payload", "Ok"), "None": ("call", 1, False, "Err")}),
+        "std::option::Option::<T>::ok_or": ("opt", {"Some": ("payload", "Ok"), "None": ("arg", 1, "Err")}),
+        "std::result::Result::<T, E>::map": ("res", {"Ok": ("call", 1, True, "Ok"), "Err": ("same",)}),
+        "std::result::Result::<T, E>::map_err": ("res", {"Ok": ("same",), "Err": ("call", 1, True, "Err")}),
+        "std::result::Result::<T, E>::and_then": ("res", {"Ok": ("call", 1, True, None), "Err": ("same",)}),
+        "std::result::Result::<T, E>::unwrap_or_else": ("res", {"Ok": ("payload", None), "Err": ("call", 1, True, None)}),
+        "std::result::Result::<T, E>::unwrap_or": ("res", {"Ok": ("payload", None), "Err": ("arg", 1, None)}),
+        "std::result::Result::<T, E>::ok": ("res", {"Ok": ("payload", "Some"), "Err": ("const", "None")}),
+        "std::option::Option::<T>::filter": ("opt", {"Some": ("filter", 1), "None": ("const", "None")}),
+        "std::option::Option::<T>::is_some": ("opt", {"Some": ("bool", 1), "None": ("bool", 0)}),
+        "std::option::Option::<T>::is_none": ("opt", {"Some": ("bool", 0), "None": ("bool", 1)}),
+        "std::result::Result::<T, E>::is_ok": ("res", {"Ok": ("bool", 1), "Err": ("bool", 0)}),
+        "std::result::Result::<T, E>::is_err": ("res", {"Ok": ("bool", 0), "Err": ("bool", 1)}),
+    }
+
+    def _wrap(self, v, w):
+        OPT, RES = "std::option::Option", "std::result::Result"
+        if w is None:
+            return v
+        if isinstance(w, tuple) and w[0] == "filter":
+            # Some(p).filter(c): Some(p) if c else None; undecided conditions stay symbolic as opt_if(c, p)
+            if isinstance(v, Const) and v.ty == "bool" and v.bits is not None:
+                return Variant(OPT, "Some", {"0": w[1]}) if v.bits else Variant(OPT, "None", {})
+            return App("opt_if", [v, w[1]])
+        if w in ("Some",):
+            return Variant(OPT, "Some", {"0": v})
+        if w in ("Ok", "Err"):
+            return Variant(RES, w, {"0": v})
+        return v
+
+    def _combinator(self, path, frame, t, name, args):
+        spec = self._COMB.get(name)
+        if spec is None or t["target"] is None:
+            return NotImplemented
+        kind, acts = spec
+        recv = self._snap(path, args[0])
+        variants = ("Some", "None") if kind == "opt" else ("Ok", "Err")
+        adt = "std::option::Option" if kind == "opt" else "std::result::Result"
+        if isinstance(recv, Variant) and recv.variant in variants:
+            alts = [(recv.variant, recv, path)]
+        else:
+            # opaque receiver: decide its variant (consistently with any other test of the same value)
+            ck = App("discr", [recv], info={"adt": adt}).key()
+            if ck in path.assumed and path.assumed[ck] in variants:
+                lab = path.assumed[ck]
+                alts = [(lab, None, path)]
+            else:
+                q = path.copy()
+                path.assumed[ck] = variants[0]
+                path.decisions.append(("switch", App("discr", [recv], info={"adt": adt}), variants[0], t["span"]))
+                q.assumed[ck] = variants[1]
+                q.decisions.append(("switch", App("discr", [recv], info={"adt": adt}), variants[1], t["span"]))
+                alts = [(variants[0], None, path), (variants[1], None, q)]
+        forks = []
+        for i, (lab, known, pth) in enumerate(alts):
+            fr = pth.frames[-1]
+            if known is not None:
+                payload = known.fields.get("0", Tup([]))
+                whole = known
+            else:
+                payload = App("as:" + lab, [recv])
+                payload = App(".0", [payload]) if lab in ("Some", "Ok", "Err") else Tup([])
+                whole = Variant(adt, lab, {"0": payload} if lab != "None" else {})
+            act = acts[lab]
+            a_args = [self.operand(pth, fr, a) for a in t["args"]] if pth is not path else args
+            if act[0] == "same":
+                self._finish_call(pth, fr, t, whole)
+            elif act[0] == "const":
+                self._finish_call(pth, fr, t, Variant("std::option::Option", "None", {}))
+            elif act[0] == "bool":
+                self._finish_call(pth, fr, t, Const("bool", act[1]))
+            elif act[0] == "payload":
+                self._finish_call(pth, fr, t, self._wrap(payload, act[1]))
+            elif act[0] == "arg":
+                self._finish_call(pth, fr, t, self._wrap(self._snap(pth, a_args[act[1]]), act[2]))
+            elif act[0] in ("call", "filter"):
+                f = self._snap(pth, a_args[act[1]])
+                if act[0] == "filter":
+                    cargs, wrap = [payload], ("filter", payload)
+                else:
+                    cargs = [payload] if act[2] else []
+                    wrap = act[3]
+                if isinstance(f, Closure) and f.path in self.fb.bodies and len(pth.frames) < self.policy.max_depth + 3:
+                    self._push(pth, self.fb.bodies[f.path], [f] + cargs, t["dest"], t["target"],
+                               post=(lambda v, w=wrap: self._wrap(v, w)))
+                elif isinstance(f, FnItem) and self.callee_body(f.fn) is not None and len(pth.frames) < self.policy.max_depth + 3 \
+                        and self.policy.inline(f.fn, cargs, self, pth):
+                    self._push(pth, self.callee_body(f.fn), cargs, t["dest"], t["target"],
+                               post=(lambda v, w=wrap: self._wrap(v, w)))
+                elif isinstance(f, Variant) and not f.fields and f.variant is None:
+                    # tuple-struct / variant constructor used as a function, e.g. `.map(Val::Int)`
+                    self._finish_call(pth, fr, t, self._wrap(App("ctor", cargs), wrap))
+                else:
+                    fname = f.fn["path"] if isinstance(f, FnItem) else "call:" + show(f)
+                    res = self._ctor_or_app(f, fname, cargs)
+                    self._finish_call(pth, fr, t, self._wrap(res, wrap))
+            if pth is not path:
+                forks.append(pth)
+        return forks if forks else None
+
+    def _ctor_or_app(self, f, fname, cargs):
+        """`Val::Int` passed as a function: build the variant; otherwise an opaque application."""
+        if isinstance(f, FnItem):
+            p = f.fn["path"]
+            adt, _, var = p.rpartition("::")
+            a = self.fb.adts.get(adt)
+            if a and any(v["name"] == var for v in a["variants"]):
+                return Variant(adt, var if a["kind"] == "enum" else None, {str(i): x for i, x in enumerate(cargs)})
+            return App(p, cargs, info=f.fn)
+        return App(fname, cargs)
 
     def _snap(self, path, v):
         """Value snapshot: references are replaced by what they point to (also inside closures'
